@@ -20,6 +20,7 @@ from eliot._traceback import TRACEBACK_MESSAGE
 from eliot import MessageType, Field, MemoryLogger, FileDestination
 
 ID = "C16"
+CASE_TIMEOUT = 3600  # one case is a whole schedule exploration
 LEVEL = "model_checking"
 DETERMINISM_REPLAY = False  # engine checks prefix replay + re-runs first/last schedule
 RULE = (
